@@ -54,6 +54,13 @@ type histProfile struct {
 	wUpdate                                    int  // 1 in n events is preceded by an operator's change of the device (new address, or new AppKey) through the storage layer
 }
 
+// a downlink as the pipeline hands it to the gateway interface: the frame, the RX1 delay, the gateway and its clock, and the
+// radio parameters (data rate, channel, RF chain, and whether the frequency is the uplink's - the histories use one frequency)
+func dlStr(d server.GatewayPacket) string {
+	return fmt.Sprintf("%s:%d:%x:%d:%s:%d:%d:%d", hx(d.RawMessage), d.Radio.RX1Delay, uint64(d.Gateway.GatewayEUI.ToInt64()), d.Gateway.GatewayClock,
+		d.Radio.DataRate, d.Radio.Channel, d.Radio.RFChain, b01(d.Radio.Frequency == 868.1))
+}
+
 var datrs = []string{"SF12BW125", "SF11BW125", "SF10BW125", "SF9BW125", "SF8BW125", "SF7BW125", "SF7BW250", "FSKBW500"}
 
 func eui64(v uint64) protocol.EUI { return protocol.EUIFromInt64(int64(v)) }
@@ -134,7 +141,7 @@ func (h *histRunner) rx(raw []byte, tag string) {
 	appnonce, newaddr := "", uint32(0)
 	var dl []string
 	for _, d := range downs {
-		dl = append(dl, fmt.Sprintf("%s:%d:%x:%d", hx(d.RawMessage), d.Radio.RX1Delay, uint64(d.Gateway.GatewayEUI.ToInt64()), d.Gateway.GatewayClock))
+		dl = append(dl, dlStr(d))
 		if len(d.RawMessage) == 17 && d.RawMessage[0]>>5 == 1 && len(raw) >= 19 {
 			// recover the random AppNonce / fresh address the server chose (inputs of the model)
 			var de protocol.EUI
@@ -216,7 +223,7 @@ func (h *histRunner) rxCrash(raw []byte, crashAt int, fails []int, tag string) {
 	appnonce, newaddr := "", uint32(0)
 	var dl []string
 	for _, d := range downs {
-		dl = append(dl, fmt.Sprintf("%s:%d:%x:%d", hx(d.RawMessage), d.Radio.RX1Delay, uint64(d.Gateway.GatewayEUI.ToInt64()), d.Gateway.GatewayClock))
+		dl = append(dl, dlStr(d))
 	}
 	// the random AppNonce / fresh address the join handler chose: from the emitted accept if there is one,
 	// otherwise from the stored session (keys are derived from it; the model needs it as input)
@@ -744,6 +751,8 @@ var profiles = map[string]histProfile{
 	// a long life of one server under mostly undecodable / unauthentic radio payloads, valid traffic in between
 	"C11": {noRestart: true, maxSubmit: 40, name: "C11", wUplink: 2, wCorrupt: 6, wJoin: 1, wSubmit: 1, wReplay: 9, maxDevs: 1, minEv: 320, maxEv: 380},
 	"C10": {maxSubmit: 40, name: "C10", wUplink: 5, wCorrupt: 0, wJoin: 1, wSubmit: 3, wReplay: 2, wCrash: 6, maxDevs: 1, minEv: 8, maxEv: 20},
+	// downlinks of every kind (acknowledgements, queued data, join-accepts) in answer to uplinks of every data rate and channel
+	"C17": {name: "C17", wUplink: 8, wCorrupt: 0, wJoin: 3, wSubmit: 4, wReplay: 0, maxDevs: 3, minEv: 8, maxEv: 20},
 	"C09": {sameTs: true, name: "C09", wUplink: 8, wCorrupt: 2, wJoin: 1, wSubmit: 3, wReplay: 3, maxDevs: 2, minEv: 10, maxEv: 30},
 }
 
@@ -791,5 +800,7 @@ func init() {
 	gw17 := suites["C17"]
 	ss17 := schedSuite("schedC17", schedKinds["C17"], 9, 200)
 	suites["schedC17"] = ss17
-	suites["C17"] = func(rng *rand.Rand, tier string, w *Writer) { gw17(rng, tier, w); ss17(rng, tier, w) }
+	hs17 := histSuite("C17", 40, 800)
+	suites["histC17"] = hs17
+	suites["C17"] = func(rng *rand.Rand, tier string, w *Writer) { gw17(rng, tier, w); ss17(rng, tier, w); hs17(rng, tier, w) }
 }
